@@ -30,6 +30,7 @@ cases = _c06.cases
 model_payload = _c06.model_payload
 impl = _c06.impl
 compare = _c06.compare
+model_stats = _c06.model_stats
 shrink = _c06.shrink
 
 
@@ -71,7 +72,7 @@ def known_cause(payload):
     return None
 
 
-EXTRA_PROPS = ["UPVerif.Props.C07Lift", "UPVerif.Props.C07Ground"]
+EXTRA_PROPS = ["UPVerif.Props.C07Lift", "UPVerif.Props.C07Ground", "UPVerif.Props.C07BTQR"]
 
 MANIFEST = {
     "level_text": ("Lean 4 theorems (Props/C07.lean): a generic backward-simulation theorem over abstract transition systems "
